@@ -120,12 +120,13 @@ func init() {
 func init() {
 	properties["C14"] = Property{
 		Level: "exploration",
-		Rule:  "one case = (script from 5 families, timeout setting {location control 50-300 ms, system default 400 ms, timeouts disabled}, position {RunJavascript, rule condition, rule action}, state kind); non-terminating => error/non-complete node, return not before the limit and (canary-judged) within 12 s of it; throwing/invalid => error, never success; finishing => expected value with exactly its bindings visible; non-trivial = script is throwing, invalid or non-terminating, or a timeout is configured; distinct by the case tuple; `siblingScopes` (or/and/not over scripts that return objects; an action reports whether it sees a sibling's variable) and `libraryScripts` (the same text with library twice / none / thrice / broken in three orders as action, condition and RunJavascript); getter-valued results (finishing and looping), thrown objects with a throwing toString, `encodedScripts` (opts.encoding none / empty / base64), `oversleep` (Env.sleep beyond the limit: listed finding)",
+		Rule:  "one case = (script from 5 families, timeout setting {location control 50-300 ms, system default 400 ms, timeouts disabled}, position {RunJavascript, rule condition, rule action}, state kind); non-terminating => error/non-complete node, return not before the limit and (canary-judged) within 12 s of it; throwing/invalid => error, never success; finishing => expected value with exactly its bindings visible; non-trivial = script is throwing, invalid or non-terminating, or a timeout is configured; distinct by the case tuple; `siblingScopes` (or/and/not over scripts that return objects; an action reports whether it sees a sibling's variable) and `libraryScripts` (the same text with library twice / none / thrice / broken in three orders as action, condition and RunJavascript); getter-valued results (finishing and looping), thrown objects with a throwing toString, `encodedScripts` (opts.encoding none / empty / base64), `oversleep` (Env.sleep beyond the limit: listed finding); unbounded recursion (must end as an error of the script); stage `spin`: loops without a statement in their body, in a child of their own (listed finding c14.empty-loop-not-interrupted)",
 		Floor: [2]int{30, 100},
 		Assumptions: []string{"bounded progress is judged against a canary timer in the same Go runtime: only when the canary fired on time and the call is still blocked 12 s later is it a violation; a late canary makes the case inconclusive", "scripts blocked inside a host function (Env.sleep(1e12)) are out of reach: otto can only be interrupted between statements"},
 		Stages: []Stage{
 			{Name: "timeouts-on", Pkg: "./mon/c14", Procs: 2, Batches: [2]int{2, 4}, TimeoutS: [2]int{900, 3600}},
 			{Name: "timeouts-off", Pkg: "./mon/c14", Procs: 2, Batches: [2]int{1, 2}, TimeoutS: [2]int{900, 3600}, Env: []string{"C14_TIMEOUTS=off"}},
+			{Name: "spin", Pkg: "./mon/c14", Procs: 8, Batches: [2]int{1, 1}, TimeoutS: [2]int{300, 600}, Env: []string{"C14_SPIN=1"}},
 		},
 	}
 }
